@@ -199,6 +199,23 @@ class Slow:
         return 1
 
 
+class Board:
+    def __init__(self, name):
+        self.name = name
+
+    def noop(self):
+        return 1
+
+
+_BOARDS = {}
+
+
+def board(name):
+    """a registered *callable* that returns an object which may be hosted already: get-or-create by name (the
+    natural way for several processes to reach one shared hosted object through a pickled manager)"""
+    return _BOARDS.setdefault(name, Board(name))
+
+
 def _register():
     from mpservice.multiprocessing.server_process import ServerProcess
     if 'Maker' not in ServerProcess._registry:
@@ -206,6 +223,7 @@ def _register():
         ServerProcess.register('Counter', Counter)
         ServerProcess.register('Hub', Hub)
         ServerProcess.register('Slow', Slow)
+        ServerProcess.register('Board', board)
 
 
 # ----------------------------------------------------------------------------------------------
@@ -369,6 +387,9 @@ class Agent:
         thread keeps creating `Slow` objects (constructor under the server mutex); every call must give a live
         proxy that behaves like the Widget itself"""
         hub = self.h[name]
+        # the Slow objects are created on the server that hosts the hub (its mutex is the contended one)
+        mgr = next((m for m in self.managers.values() if m is not None and str(m._address) == str(hub._token.address)),
+                   self.manager)
         bad, good = [], [0] * n_threads
         stop = threading.Event()
 
@@ -394,7 +415,7 @@ class Agent:
         def creator():
             while not stop.is_set():
                 try:
-                    s = self.manager.Slow(slow_ms)
+                    s = mgr.Slow(slow_ms)
                     del s
                 except Exception as e:  # noqa
                     bad.append(f'creator: {e!r}'[:300])
@@ -477,6 +498,19 @@ class Agent:
         self.children[child] = p
         return None
 
+    def c_fork(self, child, addr):
+        """start a child with the FORK start method: it inherits this client's proxies through memory (no
+        pickling); the stdlib's after-fork hook increments each of them in the child.  Only called in
+        single-threaded client processes."""
+        import multiprocessing
+        p = multiprocessing.get_context('fork').Process(target=forked_main, args=(child, addr, self))
+        p.start()
+        self.children[child] = p
+        return None
+
+    def c_nthreads(self):
+        return threading.active_count()
+
     def c_join(self, child):
         p = self.children.pop(child)
         p.join(20)
@@ -523,6 +557,27 @@ def client_main(name, addr, manager, proxies, hold=False, queue=None, manager_b=
         conn.send(ag.do(cmd))
 
 
+def forked_main(name, addr, ag):
+    """a forked client: `ag` is the parent's agent as copied by fork(), with all its proxies"""
+    from multiprocessing.connection import Client
+    ag.name = name
+    ag.children = {}
+    _HELD.append(ag)           # the inherited proxies are alive when this process exits
+    info = [[h, p._id, p._token.typeid, str(p._token.address)] for h, p in ag.h.items()]
+    conn = Client(addr, family='AF_UNIX')
+    conn.send(('hello', name, info))
+    while True:
+        try:
+            cmd = conn.recv()
+        except EOFError:
+            os._exit(3)
+        if cmd[0] == 'exit':
+            conn.send(None)
+            conn.close()
+            return
+        conn.send(ag.do(cmd))
+
+
 # ----------------------------------------------------------------------------------------------
 # the director
 # ----------------------------------------------------------------------------------------------
@@ -535,7 +590,9 @@ class Director:
         self.case = case
         self.op_timeout = case.get('op_timeout', 20.0)
         self.settle = case.get('settle', 1.5)
-        self.manager = ServerProcess()
+        # an explicit authkey that differs from the processes' own (inherited) key
+        ak = case.get('authkey')
+        self.manager = ServerProcess(authkey=ak.encode() if ak else None)
         self.manager.start()
         self.servers = {'A': self.manager}
         if case.get('two_servers'):
@@ -601,6 +658,12 @@ class Director:
             who_agent_cmd = ['spawn', cmd[1], cmd[2], self.addr, cmd[3], bool(cmd[4]) if len(cmd) > 4 else False,
                              list(cmd[5]) if len(cmd) > 5 else []]
             r = self._do(who, who_agent_cmd)
+            if isinstance(r, dict) and ('$raised' in r or '$hang' in r):
+                return r
+            return self.accept(cmd[1])
+        if cmd[0] == 'fork':
+            # ['fork', child]: `who` forks
+            r = self._do(who, ['fork', cmd[1], self.addr])
             if isinstance(r, dict) and ('$raised' in r or '$hang' in r):
                 return r
             return self.accept(cmd[1])
